@@ -97,6 +97,7 @@ func (m *Module) RunHighPriorityMicroTask(name string, fn func(context.Context) 
 	}
 
 	// Increase global counter here, as high priority tasks do not wait for clearance.
+	verifYield("mt:pre-inc")
 	atomic.AddInt32(microTasks, 1)
 	return m.runMicroTask(name, fn)
 }
@@ -147,6 +148,7 @@ func (m *Module) runMicroTask(name string, fn func(context.Context) error) (err 
 	verifEvent("pre:inc:m", m.Name)
 	atomic.AddInt32(m.microTaskCnt, 1)
 	verifEvent("post", m.Name)
+	verifEvent("mt:begin")
 
 	// set up recovery
 	defer func() {
@@ -178,6 +180,7 @@ func (m *Module) SignalHighPriorityMicroTask() (done func()) {
 	}
 
 	// Increase global counter here, as high priority tasks do not wait for clearance.
+	verifYield("mt:pre-inc")
 	atomic.AddInt32(microTasks, 1)
 	return m.signalMicroTask()
 }
@@ -220,6 +223,7 @@ func (m *Module) signalMicroTask() (done func()) {
 	verifEvent("pre:inc:m", m.Name)
 	atomic.AddInt32(m.microTaskCnt, 1)
 	verifEvent("post", m.Name)
+	verifEvent("mt:begin")
 
 	doneCalled := abool.New()
 	return func() {
@@ -237,10 +241,14 @@ func (m *Module) concludeMicroTask() {
 	m.checkIfStopComplete()
 
 	// Finish and possibly trigger next task.
+	verifYield("mt:conclude")
 	atomic.AddInt32(microTasks, -1)
+	verifEvent("mt:concluded")
 	select {
 	case microTaskFinished <- struct{}{}:
+		verifEvent("mt:token", true)
 	default:
+		verifEvent("mt:token", false)
 	}
 }
 
@@ -276,13 +284,16 @@ func microTaskScheduler() {
 	// }()
 
 	for {
+		verifYield("mt:sched-loop")
 		if shutdownFlag.IsSet() {
+			verifEvent("mt:sched-shutdown")
 			go microTaskShutdownScheduler()
 			return
 		}
 
 		// Check if there is space for one more microtask.
 		if atomic.LoadInt32(microTasks) < atomic.LoadInt32(microTasksThreshhold) { // space left for firing task
+			verifEvent("mt:sched-space")
 			// Give Medium clearance.
 			select {
 			case clearanceSignal = <-mediumPriorityClearance:
@@ -306,15 +317,21 @@ func microTaskScheduler() {
 
 			// Send clearance signal and increase task counter.
 			if clearanceSignal != nil {
+				verifEvent("mt:sched-grant", clearanceSignal)
 				close(clearanceSignal)
+				verifYield("mt:sched-granted")
 				atomic.AddInt32(microTasks, 1)
+				verifEvent("mt:sched-counted")
 			}
 			clearanceSignal = nil
 		} else {
+			verifEvent("mt:sched-full")
 			// wait for signal that a task was completed
 			select {
 			case <-microTaskFinished:
+				verifEvent("mt:sched-woken")
 			case <-recheck.C:
+				verifEvent("mt:sched-tick")
 			}
 		}
 
@@ -335,8 +352,11 @@ func microTaskShutdownScheduler() {
 
 		// Give clearance if requested.
 		if clearanceSignal != nil {
+			verifEvent("mt:sched-grant", clearanceSignal)
 			close(clearanceSignal)
+			verifYield("mt:sched-granted")
 			atomic.AddInt32(microTasks, 1)
+			verifEvent("mt:sched-counted")
 		}
 		clearanceSignal = nil
 	}
@@ -345,6 +365,7 @@ func microTaskShutdownScheduler() {
 func getMediumPriorityClearance(maxDelay time.Duration) {
 	// Submit signal to scheduler.
 	signal := make(chan struct{})
+	verifEvent("mt:submit", "m", signal)
 	select {
 	case mediumPriorityClearance <- signal:
 	default:
@@ -352,7 +373,9 @@ func getMediumPriorityClearance(maxDelay time.Duration) {
 		case mediumPriorityClearance <- signal:
 		case <-time.After(maxDelay):
 			// Start without clearance and increase microtask counter.
+			verifYield("mt:pre-inc")
 			atomic.AddInt32(microTasks, 1)
+			verifEvent("mt:timeout-enqueue")
 			return
 		}
 	}
@@ -366,6 +389,7 @@ func getMediumPriorityClearance(maxDelay time.Duration) {
 			// Don't keep waiting for signal forever.
 			// Don't increase microtask counter, as the signal was already submitted
 			// and the counter will be increased by the scheduler.
+			verifEvent("mt:timeout-wait")
 		}
 	}
 }
@@ -373,6 +397,7 @@ func getMediumPriorityClearance(maxDelay time.Duration) {
 func getLowPriorityClearance(maxDelay time.Duration) {
 	// Submit signal to scheduler.
 	signal := make(chan struct{})
+	verifEvent("mt:submit", "l", signal)
 	select {
 	case lowPriorityClearance <- signal:
 	default:
@@ -380,7 +405,9 @@ func getLowPriorityClearance(maxDelay time.Duration) {
 		case lowPriorityClearance <- signal:
 		case <-time.After(maxDelay):
 			// Start without clearance and increase microtask counter.
+			verifYield("mt:pre-inc")
 			atomic.AddInt32(microTasks, 1)
+			verifEvent("mt:timeout-enqueue")
 			return
 		}
 	}
@@ -394,6 +421,7 @@ func getLowPriorityClearance(maxDelay time.Duration) {
 			// Don't keep waiting for signal forever.
 			// Don't increase microtask counter, as the signal was already submitted
 			// and the counter will be increased by the scheduler.
+			verifEvent("mt:timeout-wait")
 		}
 	}
 }
